@@ -5,10 +5,14 @@
    Reading guide.  [run ops] is the receiving replica after an arbitrary schedule [ops] of deliveries (with or
    without the grpc pre-filter, with timestamp mismatches and rejected proposals), commits of in-flight
    proposals in batches, lost proposals, local writes, snapshots and restarts.  [n_log] is what the local raft
-   group committed, [n_cur] the store + synced map in memory.  [deliveries c l] are the entries of source
-   cluster c in l; [Follows src 0 ds k] says the delivery sequence ds follows the source log src: every
-   element is a re-delivery of one of the first entries or exactly the next new one, k distinct entries in all
-   (duplicates, stale re-sends and overlapping batches are all allowed; jumping over an undelivered entry is not).
+   group committed, [n_cur] the store + synced map in memory.  [deliveries c l] are the entries of l made on
+   behalf of source cluster c (log entries, remote snapshot transfer / apply / skip requests);
+   [Follows c src 0 ds k] says the delivery sequence ds follows the source log src: a log entry is a re-delivery
+   of one of the first entries or exactly the next new one; a snapshot apply request is stale, or fails for want
+   of a checkpoint, or carries the source's own state at one of its positions not behind what is covered; k
+   source entries are covered in all (duplicates, stale re-sends, overlapping batches, failed and repeated
+   snapshot requests are all allowed; jumping over an undelivered entry is not, nor is a "skipped" snapshot).
+   [no_foreign_snap c l]: no OTHER cluster's snapshot is installed (a remote snapshot replaces the whole store).
    [Inv c src k st]: the data replicated from c is exactly the first k source payloads, each once and in
    order, and the recorded position is the k-th entry's (absent for k = 0). *)
 From Coq Require Import List NArith Bool Arith Sorted.
@@ -19,7 +23,8 @@ Open Scope N_scope.
 (* (1) exactly once, over all schedules: hypothesis = well-formed source log + deliveries follow it *)
 Theorem C19_replay_idempotent : forall ops c src k,
   c <> 0 -> wf_source c src ->
-  Follows src 0 (deliveries c (n_log (run ops))) k ->
+  no_foreign_snap c (n_log (run ops)) ->
+  Follows c src 0 (deliveries c (n_log (run ops))) k ->
   proj c (r_journal (n_cur (run ops))) = map s_payload (firstn k src) /\
   synced_at src k (synced_of (n_cur (run ops)) c).
 Proof. exact replay_idempotent. Qed.
@@ -27,7 +32,7 @@ Print Assumptions C19_replay_idempotent.
 
 (* the same for any committed local log, from the empty replica *)
 Theorem C19_replay_idempotent_log : forall c src l k,
-  wf_source c src -> no_local_tag c l -> Follows src 0 (deliveries c l) k ->
+  wf_source c src -> no_local_tag c l -> no_foreign_snap c l -> Follows c src 0 (deliveries c l) k ->
   Inv c src k (apply_log init_r l).
 Proof. exact replay_idempotent_log. Qed.
 Print Assumptions C19_replay_idempotent_log.
@@ -37,18 +42,30 @@ Print Assumptions C19_replay_idempotent_log.
         payload image of a SUB-SEQUENCE of the source log (so every source entry contributes at most once, in
         source order) and the recorded position is the position of the last applied entry *)
 Theorem C19_at_most_once : forall ops c src,
-  c <> 0 -> wf_source c src ->
+  c <> 0 -> wf_source c src -> no_snap_ops ops ->
   (forall e, In e (delivered ops) -> s_cluster e = c -> In e src) ->
   exists acc, Sublist acc src /\
     proj c (r_journal (n_cur (run ops))) = map s_payload acc /\
-    synced_of (n_cur (run ops)) c = option_map pos_of (last_opt acc).
+    synced_last acc (synced_of (n_cur (run ops)) c).
 Proof. exact at_most_once_sched. Qed.
 Print Assumptions C19_at_most_once.
+
+(* the same with the remote snapshot branch, read on the committed log: whatever the order of log entries and
+   of failing / repeated / stale snapshot requests that carry the source's own state *)
+Theorem C19_at_most_once_log : forall ops c src,
+  c <> 0 -> wf_source c src -> no_foreign_snap c (n_log (run ops)) ->
+  (forall le, In le (deliveries c (n_log (run ops))) -> src_delivery c src le) ->
+  exists acc, Sublist acc src /\
+    proj c (r_journal (n_cur (run ops))) = map s_payload acc /\
+    synced_last acc (synced_of (n_cur (run ops)) c).
+Proof. exact at_most_once. Qed.
+Print Assumptions C19_at_most_once_log.
 
 (* (2) when everything was delivered, the replicated data is the source cluster's own data *)
 Theorem C19_replay_equals_source : forall ops c src,
   c <> 0 -> wf_source c src ->
-  Follows src 0 (deliveries c (n_log (run ops))) (length src) ->
+  no_foreign_snap c (n_log (run ops)) ->
+  Follows c src 0 (deliveries c (n_log (run ops))) (length src) ->
   proj c (r_journal (n_cur (run ops))) = proj c (r_journal (source_state c src)).
 Proof. exact replay_equals_source. Qed.
 Print Assumptions C19_replay_equals_source.
@@ -85,11 +102,33 @@ Proof. exact position_changes_after_data. Qed.
 Print Assumptions C19_position_changes_after_data.
 
 Theorem C19_position_after_effect : forall c src l le k x,
-  wf_source c src -> no_local_tag c (l ++ [le]) ->
-  Follows src 0 (deliveries c (l ++ [le])) k ->
+  wf_source c src -> no_local_tag c (l ++ [le]) -> no_foreign_snap c (l ++ [le]) ->
+  Follows c src 0 (deliveries c (l ++ [le])) k ->
   In x (apply_phases (apply_log init_r l) le) -> covered c src x.
 Proof. exact position_after_effect. Qed.
 Print Assumptions C19_position_after_effect.
+
+(* (5b) errors and retries: an application that is ignored (filtered duplicate, transfer request) or FAILS (snapshot
+        apply without a usable checkpoint) leaves the store and every recorded position exactly as they were;
+        the retry after a failed snapshot apply installs it, and every further repetition is filtered *)
+Theorem C19_ignored_or_failed_no_advance : forall st le,
+  match le with
+  | LSync e | LSkip e => is_already_applied (r_synced st) e = true
+  | LSnap e content => is_already_applied (r_synced st) e = true \/ content = None
+  | LXfer _ => True
+  | LLocal _ _ => False
+  end -> apply_entry st le = st.
+Proof. exact ignored_or_failed_no_advance. Qed.
+Print Assumptions C19_ignored_or_failed_no_advance.
+
+Theorem C19_snap_retry_once : forall st e j reps,
+  0 < s_index e -> is_already_applied (r_synced st) e = false ->
+  let st1 := apply_entry (apply_entry st (LSnap e None)) (LSnap e (Some j)) in
+  r_journal st1 = j /\
+  (exists o', synced_of st1 (s_cluster e) = Some o' /\ pos_eq o' e) /\
+  apply_log st1 (map (fun content => LSnap e content) reps) = st1.
+Proof. exact snap_retry_once. Qed.
+Print Assumptions C19_snap_retry_once.
 
 (* (6) the receive-side pre-filter of ApplyRaftReqs is sound: what it drops against the position it read —
        however stale — is dropped by the apply-side filter in every later state, so it never changes the data *)
@@ -126,16 +165,35 @@ Definition ex_ops : list op :=
 Example C19_ex_run :
   r_journal (n_cur (run ex_ops)) = [(1, 250); (0, 7); (1, 300); (1, 400)] /\
   synced_of (n_cur (run ex_ops)) 1 = Some (mkSS 3 8 1008) /\
-  deliveries 1 (n_log (run ex_ops)) = [e5; e5; e6; e6; e8; e6].
+  deliveries 1 (n_log (run ex_ops)) = map LSync [e5; e5; e6; e6; e8; e6].
 Proof. vm_compute. repeat split; reflexivity. Qed.
 
-Example C19_ex_follows : Follows ex_src 0 (deliveries 1 (n_log (run ex_ops))) 3.
+Example C19_ex_follows : Follows 1 ex_src 0 (deliveries 1 (n_log (run ex_ops))) 3.
 Proof.
-  replace (deliveries 1 (n_log (run ex_ops))) with [e5; e5; e6; e6; e8; e6] by (vm_compute; reflexivity).
-  apply F_next; [reflexivity|]. eapply (F_old _ _ 0%nat); [reflexivity|auto|].
-  apply F_next; [reflexivity|]. eapply (F_old _ _ 1%nat); [reflexivity|auto|].
-  apply F_next; [reflexivity|]. eapply (F_old _ _ 1%nat); [reflexivity|auto|]. constructor.
+  replace (deliveries 1 (n_log (run ex_ops))) with (map LSync [e5; e5; e6; e6; e8; e6]) by (vm_compute; reflexivity).
+  cbn [map].
+  apply F_next; [reflexivity|]. eapply (F_old _ _ _ 0%nat); [reflexivity|auto|].
+  apply F_next; [reflexivity|]. eapply (F_old _ _ _ 1%nat); [reflexivity|auto|].
+  apply F_next; [reflexivity|]. eapply (F_old _ _ _ 1%nat); [reflexivity|auto|]. constructor.
 Qed.
+
+(* the remote snapshot branch: a failing apply (no checkpoint) changes nothing, the retry installs the source's
+   state at entry 6 (position (2,6)) although only entry 5 had been replayed; entries 5 and 6 re-sent afterwards
+   and a repeated snapshot request are filtered; entry 8 is applied: the source's data, each entry once *)
+Definition ex_snap_ops : list op :=
+  [ODeliver e5 true true false; OCommit 1;
+   OXfer 1 2 6; OCommit 1;
+   OSnapReq 1 2 6 None; OCommit 1;
+   OXfer 1 2 6; OCommit 1;
+   OSnapReq 1 2 6 (Some (src_snapshot 1 ex_src 1)); OCommit 1; OSnap;
+   ODeliver e5 true true false; ODeliver e6 true true false; ODeliver e8 true true false; OCommit 3;
+   OXfer 1 2 6; OCommit 1; ORestart].
+
+Example C19_ex_snap_run :
+  r_journal (n_cur (run ex_snap_ops)) = [(1, 250); (1, 300); (1, 400)] /\
+  synced_of (n_cur (run ex_snap_ops)) 1 = Some (mkSS 3 8 1008) /\
+  proj 1 (r_journal (n_cur (run ex_snap_ops))) = proj 1 (r_journal (source_state 1 ex_src)).
+Proof. vm_compute. repeat split; reflexivity. Qed.
 
 (* X1: what the well-formedness hypothesis is for.  (a) a source "log" whose term decreases: the later entry
    (term 1, index 6) is dropped for ever after (term 2, index 5) — the filter compares terms first *)
@@ -162,7 +220,8 @@ Proof. vm_compute. reflexivity. Qed.
    "nothing skipped" does not.  Stated as a refutation of the unconditional reading. *)
 Definition C19_no_skip_unconditional : Prop :=
   forall c src l, wf_source c src -> no_local_tag c l ->
-    (forall e, In e src <-> In e (deliveries c l)) ->
+    (forall le, In le l -> exists e, le = LSync e) ->
+    (forall e, In e src <-> In (LSync e) (deliveries c l)) ->
     proj c (r_journal (apply_log init_r l)) = map s_payload src.
 
 Theorem C19_no_skip_unconditional_refuted : ~ C19_no_skip_unconditional.
